@@ -256,6 +256,12 @@ class VecSlot(Slot):
         for b in (BAD_IDS_THOROUGH if tier == "thorough" else BAD_IDS_QUICK):
             alts.append(Alt(b, "bad", "reg-id", "id%d" % b))
         d = [Dim(self.key, rng.range(1, min(self.maxid, 30) - 1), alts, self.opidx)]
+        if self.letter != "V" and not self.arr and self.idx is None:
+            # the same operand written with another scalar view (fcvt s0, s1; fadd d0, s1, s2 ...): unencodable unless
+            # another record of the instruction has that combination - LLVM referees (a refuted marking is judged
+            # against LLVM's bytes like any accepted case)
+            self.slkey = "op%d.sl" % self.opidx
+            d.append(Dim(self.slkey, self.letter, [Alt(L, "bad", "scalar-view", "as-" + L.lower()) for L in "BHSDQ" if L != self.letter], self.opidx))
         if self.idxkey and self.idxkey not in form.shared:
             form.shared.add(self.idxkey)
             mx, _ = self.idx_limit(form)
@@ -278,8 +284,9 @@ class VecSlot(Slot):
             idx = self.fixed_idx if self.fixed_idx is not None else v[self.idxkey]
         brace = getattr(self, "brace", False)
         if self.letter != "V" and not self.arr:
-            out.tokens.append("V:%s:%d" % (self.letter.lower(), rid))
-            out.text.append(T.vec_scalar_name(self.letter, rid))
+            letter = v.get(getattr(self, "slkey", None), self.letter)
+            out.tokens.append("V:%s:%d" % (letter.lower(), rid))
+            out.text.append(T.vec_scalar_name(letter, rid))
         elif idx is not None:
             et, suf, _ = ELEM[self.arr]
             out.tokens.append("V:q:%d:%s:%d" % (rid, et, idx))
